@@ -4,7 +4,7 @@
    Definitions only. *)
 From Coq Require Import String Ascii.
 From Coq Require Import List Bool Arith.
-From Asphalt Require Import Config.Val Config.MergeSpec.
+From Asphalt Require Import Config.Val Config.MergeSpec Gen.Gen_cli.
 Import ListNotations.
 Open Scope string_scope.
 Open Scope list_scope.
@@ -112,7 +112,8 @@ Definition apply_override (c : res dict) (o : override) : res dict :=
 Definition nonempty (o : option string) : option string :=
   match o with Some EmptyString => None | x => x end.
 Definition requested (flag env : option string) : option string :=
-  match nonempty flag with Some s => Some s | None => nonempty env end.
+  if cli_flag_beats_env then match nonempty flag with Some s => Some s | None => nonempty env end
+  else match nonempty env with Some s => Some s | None => nonempty flag end.
 
 Definition select_service (flag env : option string) (services : dict) : res tree :=
   match services with
@@ -145,7 +146,10 @@ Definition as_odict (t : tree) : res (option dict) :=
   end.
 
 Definition cli (files : list dict) (overrides : list override) (flag env : option string) : res launch :=
-  let config0 := fold_left (fun acc f => merge (Some acc) (Some f)) files [] in
+  (* which of two files wins, whether the flag beats the environment variable and whether the selected service
+     overrides the top level are read from _cli.run on this run (Gen/Gen_cli.v) *)
+  let config0 := fold_left (fun acc f => if cli_later_file_wins then merge (Some acc) (Some f)
+                                         else merge (Some f) (Some acc)) files [] in
   match fold_left apply_override overrides (Ok config0) with
   | Fail e => Fail e
   | Ok config1 =>
@@ -173,7 +177,8 @@ Definition cli (files : list dict) (overrides : list override) (flag env : optio
               match as_odict svc with
               | Fail e => Fail e
               | Ok osvc =>
-                  let merged := merge (Some config3) osvc in
+                  let merged := if cli_service_overrides_top_level then merge (Some config3) osvc
+                                else merge osvc (Some config3) in
                   match lookup "component" merged with
                   | None => Fail ENoComponent
                   | Some (TDict rc) =>
